@@ -191,7 +191,7 @@ func runHousekeepCase(c *vlib.Ctx, self string, in hkIn) map[string]any {
 	if in.Sidecar {
 		env[2] = "MUTAGEN_SIDECAR=1"
 	}
-	res := runChild(self, []string{"child", "housekeep"}, env, nil, root, 120*time.Second)
+	res := runChild(self, []string{"child", "housekeep"}, env, nil, root, 300*time.Second)
 	if res.TimedOut || res.ExitCode != 0 {
 		vlib.Fatal("housekeep child failed: exit=%d timeout=%v %s", res.ExitCode, res.TimedOut, res.Stderr)
 	}
